@@ -1167,7 +1167,15 @@ def run(ctx):
     import random
     logging.disable(logging.CRITICAL)
     rng = ctx.rng
+    # second tie: re-translate the reporting / aggregation / planning fragments of /repo's source (harness/pygen_c19.py);
+    # the equivalence lemmas of Proofs/ResponseGen.v are then re-checked by check_props against what the code says now
+    from . import pygen_c19
+    gen_ok, gen_msg = pygen_c19.regenerate()
     ctx.proof = common.check_props('C19')
+    if not gen_ok:
+        ctx.proof['ok'] = False
+        ctx.proof['log'] = 'harness/pygen_c19.py: ' + gen_msg + '\n' + ctx.proof.get('log', '')
+        ctx.proof['failed_file'] = 'theories/Gen/ResponseGen.v (translation of /repo source failed)'
     ctx.rule = ('random ROADM meshes (2-6 sites, 1-9 spans per line, optionally disconnected) x 5 equipment variants '
                 '(margins, penalties, thresholds) x random batches of 1-7 requests (fixed/free mode, fixed/free/multi-slot '
                 'N,M, bidirectional, duplicates, synchronisation vectors, include constraints) through the real planning, '
@@ -1327,6 +1335,13 @@ def run(ctx):
                                impl={'out': [(r['id'], r['bw'], r['N'], r['M']) for r in ag['out']], 'disj': ag['dout']},
                                model=line[:2000])
     ctx.assumptions += [
+        'translator tie: harness/pygen_c19.py (fail-closed Python-ast -> Gallina: dict literals of ResultElement.pathresult / '
+        'path_properties / detailed_path_json -> JObj terms, the metric list, get_penalty_from_receiver, the blocking-class '
+        'tests and the Pass? expression of jsontocsv, the columns of _jsontopath_metric, the comparison chain of '
+        'compare_reqs, the absorb condition / joined id / sums of requests_aggregation, the step sequence of planning; the '
+        'surrounding control flow is matched statement by statement against templates) is trusted; try/except '
+        'AttributeError on blocking_reason is read as the served case; round(mean(array with inf), 2) + isinf is read as '
+        'the model\'s all-finite case split',
         'observations are taken at the stage boundaries of planning() (return of compute_path_with_disjunction, state '
         'of the request objects after pth_assign_spectrum, return of propagate / propagate_and_optimize_mode)',
         'a float of the response document is read as the decimal printed by repr(); receiver arrays as exact floats; '
